@@ -179,7 +179,7 @@ CLAIMED = {
              'generated histories (real address reuse observed and replayed); the public API is compared with itself '
              'in a pristine forked interpreter after generated histories (equal / similar / unhashable / failing '
              'hints, gc, clear_caches, late definition and redefinition of forward-referenced classes); the set of '
-             'identifier-keyed memoisation sites is re-scanned on every run.',
+             'identifier-keyed memoisation sites is re-scanned on every run. The table deduplicating PEP 585 / PEP 604 hints by their representation is proved invisible for every history when a hit is compared with the hint asked about (the code as repaired, F51), still sharing equal hints, and machine-refuted without the comparison; the comparison is re-read from coerce_hint_any on every run.',
         note='Trusted: Coq kernel; the hand-written models C14/Memo.v (tied by correspondence); congruence of '
              'beartype\'s own memoised callables is tested through public-API histories, not proved; the other cache '
              'containers (CacheUnbounded*, per-object attribute caches) are exercised by those histories only. All '
